@@ -161,6 +161,18 @@ def effect_nodes(cfg, eff: Effects, recv: str = 'self', extra_roots: Iterable[st
     fnode = cfg.fnode
     roots = local_aliases_of(fnode, recv) | set(extra_roots)
     out: List[int] = []
+    # nested helper functions whose body writes the receiver (closures over `self`)
+    writing_locals: Set[str] = set()
+    for sub in ast.walk(fnode):
+        if isinstance(sub, (ast.FunctionDef, ast.Lambda)) and sub is not fnode:
+            body_writes = bool(direct_writes(sub, roots)) if isinstance(sub, ast.FunctionDef) else False
+            if not body_writes:
+                for c in ast.walk(sub):
+                    if isinstance(c, ast.Call) and isinstance(c.func, ast.Attribute) and isinstance(c.func.value, ast.Name) and c.func.value.id in roots \
+                            and (c.func.attr in MUTATORS or eff.method_writes(c.func.attr)):
+                        body_writes = True
+            if body_writes and isinstance(sub, ast.FunctionDef):
+                writing_locals.add(sub.name)
     from .flow import node_expr_roots
 
     for n in cfg.nodes:
@@ -189,6 +201,8 @@ def effect_nodes(cfg, eff: Effects, recv: str = 'self', extra_roots: Iterable[st
                                 hit = True
                         elif root_name(v) in roots and c.func.attr in MUTATORS:
                             hit = True
+                    elif isinstance(c, ast.Call) and isinstance(c.func, ast.Name) and c.func.id in writing_locals:
+                        hit = True
         if hit:
             out.append(n.id)
     return out
